@@ -1,6 +1,7 @@
 """C14 — signed messages: SignMessage / VerifyMessage / recover_compact against the Lean model and reference curve."""
 import base64
 import hashlib
+import random
 
 from ..framework import Prop, mk, guarded, ensure_repo_on_path
 from .c13 import CHAINS, N, P, HALF, secrets, hist_shrinks, b58check
@@ -127,7 +128,7 @@ class C14(Prop):
 
         # (b) sign, then judge the signature with the reference and the model
         nkeys = 3000 if big else 200
-        secs = secrets(rng.__class__('c14-secrets-%s' % tier), nkeys)
+        secs = secrets(random.Random('%s:%s:%s:common' % (getattr(self, 'seed', 0), self.id, tier)), nkeys)   # identical in every shard
         mine = [(j, s) for j, s in enumerate(secs) if j % nshards == shard]
         for j, s in mine:
             sb = s.to_bytes(32, 'big').hex()
